@@ -872,7 +872,7 @@ def run(lean_dir, repo, skip=()):
     sys.path.insert(0, str(HERE / "fn_probes"))
     import run as fn_probes_run
 
-    bad = fn_probes_run.run_all()
+    bad = fn_probes_run.run_all() + fn_probes_run.run_pin_probes(repo)
     if bad:
         return False, "translator probes: " + "; ".join(bad)[:400], 0
     okfile = lean_dir / ".fn_selftest.ok"
